@@ -21,4 +21,5 @@ for c in "$@"; do cp -f .tmp/evsave/$c.json evidence/ 2>/dev/null; done
 cd /repo
 git revert --abort >/dev/null 2>&1
 git reset -q --hard HEAD
+python3 /verif/tools/lockskel.py /repo/src/api.rs /repo/src/encrypted_header.rs -o /verif/coq/generated/LockSkel.v >/dev/null 2>&1
 git status --porcelain --untracked-files=no | head -3
